@@ -195,3 +195,4 @@ CLAIMED["C14"]["text"] += " Sources centred less than half a pixel beyond each i
 CLAIMED["C03"]["text"] += " The circular-input clause also with ratio 0.9 / 1.3."
 CLAIMED["C16"]["text"] += " Thorough tier: reference points at both exact celestial poles (the standard's LONPOLE default, 0 at CRVAL2=+90), the origin, dec 89 and the RA wrap; position angles are not judged at a pixel that is itself a pole."
 CLAIMED["C17"]["text"] += " Thorough tier: 80-point alphabet (poles approached at 1e-2..1e-8 deg, the RA wrap and the equator from both sides, a second lattice), all 6400 ordered pairs and 512000 triangles, translations by 9 radii x 72 bearings from every point."
+CLAIMED["C02"]["text"] += " Realisation 5: a uniform non-zero background under which island members above the flood clip are stored as exactly 0.0 next to non-zero members (membership and bounding box never depend on the stored value)."
